@@ -605,6 +605,14 @@ class Analysis:
                         cs = self._kill(cs, lambda v: v == ("*", n) or (isinstance(v, tuple) and bool(v) and v[0] == "[]" and v[1] == n))
         if name in self.post:
             cs = self.post[name](self, e, st, cs)
+            if cs and isinstance(cs[0], list):
+                # a contract with alternative outcomes (success / failure): one disjunct each
+                outs = set()
+                for alt in cs:
+                    s2 = _simplify(alt)
+                    if s2 is not False:
+                        outs.add(frozenset(s2))
+                return self._norm_disj(outs)
         s2 = _simplify(cs)
         if s2 is False:
             return None
